@@ -138,6 +138,14 @@ struct SdArray : Profile {
         p.seed              = rng.next();
         Rng kr              = rng.sub(1);
         p.knobs["clients"]  = kr.range(1, 2);
+        if (kr.chance(0.5))
+            p.knobs["sdfillmax"] = 8 * kr.range(1, 40); // fill-value chunk buffer (hook)
+        if (kr.chance(0.5))
+            p.knobs["ndds_override"] = kr.range(2, 12); // SDstart hard-wires 200 descriptors per block (hook)
+        if (kr.chance(0.3)) {
+            p.knobs["blklen"] = kr.range(8, 200);
+            p.knobs["blknum"] = kr.range(1, 4);
+        }
         Rng   r = rng.sub(2);
         int   nops = (int)r.range(15, thorough ? 110 : 70);
         Sched sc(r, (int)p.knobs["clients"]);
@@ -337,6 +345,7 @@ struct SdArray : Profile {
     {
         S           s(ctx);
         const Plan &p = ctx.plan;
+        apply_hook_knobs(p);
         for (size_t i = 0; i < p.ops.size(); i++) {
             const Op &o = p.ops[i];
             ctx.begin_op((int)i);
